@@ -332,3 +332,110 @@ def bit_counts_round_up(ctx, P):
                       ok, function=p, site='%s:%s' % (r['file'], st['ln']),
                       missing=None if ok else 'a bit count (%s) is divided by 8 without adding 7 first: a count that is not a multiple of 8 (521) loses its last octet' % (from_bits or ['read from the input'])[0])
     ctx.floor(P + ':bits-to-octets:floor', 'conversions of a bit count to an octet count', n, 1)
+
+
+def eval_u8_decoder(f, path, value, depth=0):
+    """Constant folding of a small pure decoder `fn(u8) -> Result<Enum, _>` / `-> Enum` for one input value: integer statements,
+    comparisons, `switchInt`, variant aggregates; a call to another crate function with the same shape is followed (2 levels), any other
+    call ends the evaluation with ('other', callee).  Returns ('Ok', variant) | ('Err',) | ('variant', name) | ('other', why)."""
+    r = f.bodies.get(path)
+    if r is None or depth > 2:
+        return ('other', 'no body')
+    env = {1: value}
+    agg = {}
+    blocks = r['blocks']
+    i = 0
+    for _ in range(200):
+        blk = blocks[i]
+        for st in blk['s']:
+            d, rv = st['d'], st['r']
+            if d['pr']:
+                continue
+            def val(o):
+                if 'k' in o:
+                    v = o['k'].get('v')
+                    return int(v) if isinstance(v, (bool, int)) else None
+                if o.get('pr'):
+                    return None
+                return env.get(o['l'])
+            if rv['k'] == 'use':
+                o = rv['o'][0]
+                if 'l' in o and not o['pr'] and o['l'] in agg:
+                    agg[d['l']] = agg[o['l']]
+                else:
+                    env[d['l']] = val(o)
+            elif rv['k'] == 'cast':
+                env[d['l']] = val(rv['o'][0])
+            elif rv['k'] == 'un':
+                v = val(rv['o'][0])
+                env[d['l']] = None if v is None else (int(not v) if rv['op'] == 'Not' else None)
+            elif rv['k'] == 'bin':
+                a, b2 = val(rv['o'][0]), val(rv['o'][1])
+                op = rv['op']
+                if a is None or b2 is None:
+                    env[d['l']] = None
+                else:
+                    env[d['l']] = {'BitAnd': a & b2, 'BitOr': a | b2, 'BitXor': a ^ b2, 'Eq': int(a == b2), 'Ne': int(a != b2), 'Lt': int(a < b2), 'Le': int(a <= b2),
+                                   'Gt': int(a > b2), 'Ge': int(a >= b2), 'Add': a + b2, 'Sub': a - b2, 'Shr': a >> b2 if b2 < 64 else 0, 'Shl': (a << b2) & 0xFF if b2 < 64 else 0}.get(op.replace('Unchecked', '').replace('WithOverflow', ''))
+            elif rv['k'] == 'agg' and rv.get('ak') == 'adt':
+                inner = [agg.get(o['l']) for o in rv['o'] if 'l' in o and not o['pr']]
+                agg[d['l']] = (rv.get('adt', '').split('::')[-1], rv.get('v'), inner[0] if inner else None)
+            else:
+                env[d['l']] = None
+        t = blk['t']
+        if t['k'] == 'goto':
+            i = t['t']
+        elif t['k'] == 'switch':
+            o = t['o']
+            v = env.get(o['l']) if ('l' in o and not o['pr']) else None
+            if v is None:
+                return ('other', 'switch on an unknown value')
+            nxt = [bb for c, bb in t['targets'] if c == v]
+            i = nxt[0] if nxt else t['else']
+        elif t['k'] == 'return':
+            a = agg.get(0)
+            if a is None:
+                return ('other', 'no aggregate returned')
+            if a[0] == 'Result':
+                return ('Ok', a[2][1]) if (a[1] == 'Ok' and a[2]) else ('Err',)
+            return ('variant', a[1])
+        elif t['k'] == 'call':
+            callee = t['f'].get('res') or t['f'].get('fn')
+            if callee in f.bodies and len(t['args']) == 1 and not t['d']['pr']:
+                a0 = t['args'][0]
+                v = env.get(a0['l']) if ('l' in a0 and not a0['pr']) else None
+                if v is not None:
+                    res = eval_u8_decoder(f, callee, v, depth + 1)
+                    if res[0] in ('Ok', 'Err', 'variant'):
+                        if t['d']['l'] == 0:
+                            if t.get('t') is not None and blocks[t['t']]['t']['k'] == 'return' and not blocks[t['t']]['s']:
+                                return res
+                        return ('other', 'result of %s used further' % callee)
+            return ('Err',) if re.search(r'Error', callee or '') else ('other', callee)
+        else:
+            return ('other', t['k'])
+    return ('other', 'too long')
+
+
+def revocation_class_decoded_exactly(ctx, P):
+    """A Revocation Key subpacket is hashed from its PARSED fields (class, algorithm, fingerprint) and the class is written as the
+    discriminant of the enum: the decoder `u8 -> RevocationKeyClass` has to be exact - the only octets it accepts are the two
+    discriminants, each mapped to itself - or octets that differ in the "reserved" bits hash alike and a changed class octet in the
+    hashed area goes unnoticed.  Decided by constant folding of the decoder for all 256 octets."""
+    path = '<types::revocation_key::RevocationKeyClass as std::convert::TryFrom<u8>>::try_from'
+    if path not in ctx.f.bodies:
+        ctx.missing(P + ':S05-8:revocation-class-exact', 'TryFrom<u8> for RevocationKeyClass not found')
+        return
+    adt = ctx.f.adts.get('types::revocation_key::RevocationKeyClass')
+    table, other = {}, {}
+    for v in range(256):
+        res = eval_u8_decoder(ctx.f, path, v)
+        if res[0] == 'Ok':
+            table[v] = res[1]
+        elif res[0] != 'Err':
+            other[v] = res[1]
+    want = {0x80: 'Default', 0xC0: 'Sensitive'}
+    ctx.check(P + ':S05-8:revocation-class-exact', 'R-table', 'the revocation key class octet is decoded exactly: 0x80 -> Default, 0xC0 -> Sensitive, everything else refused',
+              table == want and not other, function=path, table={hex(k): v for k, v in sorted(table.items())[:8]},
+              missing=None if (table == want and not other) else ('the decoder could not be evaluated for %d octets (%s)' % (len(other), list(other.values())[:1]) if other
+                                                                  else 'accepted octets: %d (e.g. %s) - octets that only differ in reserved bits decode to the same class and hash alike' % (len(table), [hex(k) for k in sorted(table)[:5]])))
